@@ -12,7 +12,7 @@ import (
 // AuthorizedServers happens while its mutex is held.
 func verifH_C13_lock_discipline() {
 	s, gcaPriv := verifHandlerServer()
-	root := verifCase("root", 0, 9)
+	root := verifCase("root", 0, 11)
 	w := &verifRW{}
 	verifWatchLocks(true)
 	switch root {
@@ -47,6 +47,27 @@ func verifH_C13_lock_discipline() {
 		s.managedGetWattTimeIndexData("u", "p")
 	case 9: // consistency check
 		s.CheckInvariants()
+	case 10: // statistics: archived, live, second live, future and misaligned weeks, unparseable offset
+		verifWatchLocks(false)
+		var ds DeviceStats
+		verifHavoc(&ds, "arch")
+		s.equipmentStatsHistory = []AllDeviceStats{{Devices: []DeviceStats{ds}, TimeslotOffset: 0}}
+		s.equipmentReportsOffset = 2016
+		tsos := []int64{0, 2016, 4032, 6048, 8064, 7}
+		q := map[string]string{"timeslot_offset": verifIntTokenOf("tso", tsos[verifCase("requested", 0, 5)])}
+		verifWatchLocks(false)
+		r := verifRequest("GET", q, nil)
+		verifWatchLocks(true)
+		s.AllDeviceStatsHandler(w, r)
+	case 11: // recent reports
+		q := map[string]string{"publicKey": "00"}
+		verifWatchLocks(false)
+		var key glow.PublicKey
+		verifHavoc(&key, "reqkey")
+		verifGhostSet("hex", key[:])
+		r := verifRequest("GET", q, nil)
+		verifWatchLocks(true)
+		s.RecentReportsHandler(w, r)
 	}
 	verifWatchLocks(false)
 	verifAssert(verifLocksHeld() == 0, "nothing_held_at_return")
